@@ -141,8 +141,17 @@ def py_pred(n: ast.AST, project_names=("project",), settings_names=("settings",)
 _JOPS = {"gt": ">", "gteq": ">=", "lt": "<", "lteq": "<=", "eq": "==", "ne": "!="}
 
 
+_J_DEFS: Dict[str, N.Node] = {}      # {% set name = expr %} definitions visible at the guard being read (set by guard_of)
+
+
 def j_pred(n: N.Node, tests: Dict[str, Tuple[str, int]], numeric=False):
     """Jinja test -> predicate; numeric=True when an integer value is expected."""
+    if isinstance(n, N.Name) and n.name in _J_DEFS and not isinstance(_J_DEFS[n.name], (N.List, N.Tuple)):
+        d = _J_DEFS.pop(n.name)          # (popped while it is being read: no self-reference loops)
+        try:
+            return j_pred(d, tests, numeric)
+        finally:
+            _J_DEFS[n.name] = d
     if isinstance(n, N.Name):
         return ("opt", n.name)
     if isinstance(n, N.Getattr) and isinstance(n.node, N.Name) and n.node.name == "project":
@@ -190,6 +199,8 @@ def guard_of(conds, tests) -> tuple:
     g = ("const", True)
     for c in conds:
         node, pol = c[2], c[1]
+        _J_DEFS.clear()
+        _J_DEFS.update(c[4] if len(c) > 4 else {})
         try:
             p = j_pred(node, tests)
         except AnalysisError:
